@@ -153,6 +153,7 @@ class Program:
         if not root.is_dir():
             raise AnalysisError("source package not found: %s" % root)
         h = hashlib.sha256()
+        parsed = []
         for path in sorted(root.rglob("*.py")):
             rel = path.relative_to(self.src_root)
             parts = list(rel.with_suffix("").parts)
@@ -166,9 +167,15 @@ class Program:
                 tree = ast.parse(src, filename=str(path))
             except SyntaxError as ex:
                 raise AnalysisError("cannot parse %s: %s" % (rel, ex))
+            parsed.append((name, path, rel, src, tree))
+        foreign = {}
+        if self.known_functions is not None:
+            from .inline import collect_foreign
+            foreign = collect_foreign({n: t for (n, _p, _r, _s, t) in parsed}, self.known_functions)
+        for (name, path, rel, src, tree) in parsed:
             if self.known_functions is not None:
                 from .inline import preprocess
-                inl, n_inl = preprocess(name, tree, self.known_functions)
+                inl, n_inl = preprocess(name, tree, self.known_functions, foreign)
                 self.inlined_helpers |= inl
                 self.stats["inlined_calls"] += n_inl
             m = Module(name, path, "src/" + rel.as_posix(), src, tree)
